@@ -18,7 +18,7 @@ REQUIRED = ["value==exhaustive min-max", "value==threshold-search oracle", "valu
 RULE = ("pairs of diagrams, sizes (0,0),(0,n),(1,1),(2,2)... up to M+N<=11 (exhaustive oracle over all partial matchings) "
         "and up to 60+60 quick / 150+150 thorough (scipy Hopcroft-Karp threshold oracle); classes: tiny integer grids "
         "(ties, repeated and diagonal points), dyadic, floats, diagonal-heavy, all-equal, one-ulp near-ties, clusters, re-paired copies (same births and deaths, different pairing); "
-        "scales 1e-6..1e6; each case replayed under several hash seeds. non-trivial = both diagrams non-empty, M+N>=3 and "
+        "scales 1e-6..1e6; one case in 1201 has 260-460 generic points per diagram; each case replayed under several hash seeds. non-trivial = both diagrams non-empty, M+N>=3 and "
         "(the optimum is strictly below the all-diagonal cost, i.e. a cross pairing is forced, or the optimum value "
         "occurs more than once among the candidate costs); distinct = digest of the input pair")
 ASSUMPTIONS = ["oracle cost rule written from the statement in scalar python: L-inf between points, (d-b)/2 to the diagonal",
@@ -26,6 +26,7 @@ ASSUMPTIONS = ["oracle cost rule written from the statement in scalar python: L-
                "scipy.sparse.csgraph.maximum_bipartite_matching as perfect-matching test; both oracles are cross-checked "
                "against each other on every small case (disagreement = harness error => inconclusive)",
                "values compared at 1e-9*scale (they are in fact bit-identical: same scalar operations)"]
+REQUIRED_NOTES = ["large-cases"]
 TECHNIQUE = "runtime monitoring: postcondition monitor on persim.bottleneck with exhaustive / threshold-search oracles, replicated across PYTHONHASHSEED configurations"
 
 
@@ -68,9 +69,25 @@ def call(ctx, *a, **kw):
     return bottleneck(*a, **kw)
 
 
+def gen_large(rng):
+    """a few hundred generic points per diagram: tens of thousands of distinct candidate distances"""
+    scale = gen.pick_scale(rng)
+    m, n = int(rng.integers(260, 461)), int(rng.integers(260, 461))
+    A = gen.diagram(rng, m, str(rng.choice(["float", "cluster", "diagheavy"])), scale)
+    B = gen.diagram(rng, n, str(rng.choice(["float", "cluster", "diagheavy"])), scale)
+    if rng.random() < 0.3:
+        B = A[rng.permutation(m)] + rng.normal(0, 1e-3 * scale, A.shape); B[:, 1] = np.maximum(B[:, 1], B[:, 0])
+    return A, B, scale
+
+
 def run_case(ctx, k, rng):
-    A, B, scale, small = gen_pair(rng, ctx.tier)
-    ctx.begin(k, "small" if small else "medium", {"dgm1": A, "dgm2": B})
+    if k % 1201 == 7:
+        A, B, scale = gen_large(rng); small = False
+        ctx.note("large-cases")
+        ctx.begin(k, "large", {"dgm1": A, "dgm2": B})
+    else:
+        A, B, scale, small = gen_pair(rng, ctx.tier)
+        ctx.begin(k, "small" if small else "medium", {"dgm1": A, "dgm2": B})
     S, T = OM.finite_rows(A), OM.finite_rows(B)
     tol = 1e-9 * scale_of(A, B)
     try:
